@@ -9,7 +9,7 @@
   total with typed errors, and every error the model can report is one of jparse's error
   types (regenerated).  The lexer cannot loop: every token other than EOF consumes at least one
   byte (`next_progress`), lexing terminates (`lexAll_terminates`), and the recursion budget of the
-  Pratt parser and of every loop it runs always suffices (`parse_never_out_of_fuel`); the optimiser is
+  Pratt parser and of every loop it runs always suffices (`parse_never_out_of_fuel`, end to end `parse_never_fuel`); the optimiser is
   structurally recursive (accepted by Lean's termination checker), so the model of Compile is a total
   function that never reports its own `fuel` error.
 -/
@@ -1480,6 +1480,101 @@ theorem parse_never_out_of_fuel (inp : Input) (p0 : PState) (h0 : advance inp tr
   intro e he
   have hR := R_le inp p0
   exact (parseExpr_fine inp (2 * inp.size + 8) 0 p0 (by omega)).1 e he
+
+
+/-! ### end to end: parse never reports its own budget error -/
+
+/-- the optimiser's errors are its three typed kinds -/
+def OptErr (e : PErr) : Prop := e.type = "ErrGroupGroup" ∨ e.type = "ErrPathLiteral" ∨ e.type = "ErrGroupPredicate"
+
+theorem optErr_not_fuel (e : PErr) (h : OptErr e) : e.type ≠ "fuel" := by
+  rcases h with h | h | h <;> (rw [h]; decide)
+
+
+set_option hygiene false in
+macro "opt_case" : tactic => `(tactic|
+  (simp only [optimize, optimizeL, optimizeP, optimizeT, bind, Except.bind, pure, Except.pure] at h
+   repeat' split at h
+   all_goals first
+     | (cases h; done)
+     | (injection h with h'; subst h'; first
+         | exact optimize_err _ _ (by assumption)
+         | exact optimizeL_err _ _ (by assumption)
+         | exact optimizeP_err _ _ (by assumption)
+         | exact optimizeT_err _ _ (by assumption)
+         | exact Or.inl rfl
+         | exact Or.inr (Or.inl rfl)
+         | exact Or.inr (Or.inr rfl))))
+
+mutual
+theorem optimize_err : ∀ (n : PNode) (e : PErr), optimize n = .error e → OptErr e
+  | .str _, e, h => by opt_case
+  | .num _, e, h => by opt_case
+  | .bool _, e, h => by opt_case
+  | .null, e, h => by opt_case
+  | .regex _, e, h => by opt_case
+  | .var _, e, h => by opt_case
+  | .name _, e, h => by opt_case
+  | .neg _, e, h => by opt_case
+  | .range _ _, e, h => by opt_case
+  | .array _, e, h => by opt_case
+  | .object _, e, h => by opt_case
+  | .block _, e, h => by opt_case
+  | .wildcard, e, h => by opt_case
+  | .descendent, e, h => by opt_case
+  | .transform _ _ _, e, h => by opt_case
+  | .lambda _ _ _, e, h => by opt_case
+  | .partial_ _ _, e, h => by opt_case
+  | .placeholder, e, h => by opt_case
+  | .call _ _, e, h => by opt_case
+  | .group _ _, e, h => by opt_case
+  | .cond _ _ _, e, h => by opt_case
+  | .assign _ _, e, h => by opt_case
+  | .numop _ _ _, e, h => by opt_case
+  | .cmpop _ _ _, e, h => by opt_case
+  | .boolop _ _ _, e, h => by opt_case
+  | .concat _ _, e, h => by opt_case
+  | .sort _ _, e, h => by opt_case
+  | .apply _ _, e, h => by opt_case
+  | .dot _ _, e, h => by opt_case
+  | .singleton _, e, h => by opt_case
+  | .predRaw _ _, e, h => by opt_case
+theorem optimizeL_err : ∀ (l : List PNode) (e : PErr), optimizeL l = .error e → OptErr e
+  | [], e, h => by opt_case
+  | _ :: _, e, h => by opt_case
+theorem optimizeP_err : ∀ (l : List (PNode × PNode)) (e : PErr), optimizeP l = .error e → OptErr e
+  | [], e, h => by opt_case
+  | (_, _) :: _, e, h => by opt_case
+theorem optimizeT_err : ∀ (l : List (SortDir × PNode)) (e : PErr), optimizeT l = .error e → OptErr e
+  | [], e, h => by opt_case
+  | (_, _) :: _, e, h => by opt_case
+end
+
+
+/-- **Compile's model is total and never gives up**: for every input — any bytes at all — `parse` returns a
+    tree or an error whose kind is one of jparse's; the model's internal `fuel` error cannot occur.  (Lexing,
+    the Pratt parser with all its loops, and the optimiser; `parse` itself is a total Lean function.) -/
+theorem parse_never_fuel (inp : Input) (e : PErr) (h : parse inp = .error e) : e.type ≠ "fuel" := by
+  unfold parse at h
+  simp only [bind, Except.bind] at h
+  cases ha : advance inp true { lex := initState, tok := default } with
+  | error e0 =>
+    simp only [ha] at h
+    injection h with h; rw [← h]
+    exact (advance_fine inp true _).1 e0 ha
+  | ok p0 =>
+    simp only [ha] at h
+    cases hp : parseExpr inp (2 * inp.size + 8) 0 p0 with
+    | error e1 =>
+      simp only [hp] at h
+      injection h with h; rw [← h]
+      exact parse_never_out_of_fuel inp p0 ha e1 hp
+    | ok r =>
+      obtain ⟨node, p⟩ := r
+      simp only [hp] at h
+      split at h
+      · injection h with h; rw [← h]; simp [tokErr]
+      · exact optErr_not_fuel e (optimize_err node e h)
 
 
 /-! ### signatures and escapes are total with typed errors -/
